@@ -171,3 +171,44 @@ def order_rel(e):
     if t is _ast.GtE:
         return (b, "<=", a)
     return None
+
+
+def deref(fnode, e, depth=4):
+    """Follow single-assignment temporaries: an expression in which every local
+    Name that is assigned exactly once in `fnode` (plain `t = E`, not a loop
+    target / augmented / parameter) is replaced by its defining expression.
+    Returns a new expression tree; the original is not modified."""
+    import ast as _ast
+    import copy as _copy
+    defs = {}
+    multi = set()
+    params = {a.arg for a in fnode.args.posonlyargs + fnode.args.args + fnode.args.kwonlyargs}
+    for st in _ast.walk(fnode):
+        tg = []
+        if isinstance(st, _ast.Assign):
+            tg = [(t, st.value) for t in st.targets]
+        elif isinstance(st, (_ast.AugAssign, _ast.AnnAssign)):
+            tg = [(st.target, None)]
+        elif isinstance(st, (_ast.For, _ast.AsyncFor)):
+            tg = [(st.target, None)]
+        elif isinstance(st, _ast.NamedExpr):
+            tg = [(st.target, None)]
+        elif isinstance(st, (_ast.With, _ast.AsyncWith)):
+            tg = [(i.optional_vars, None) for i in st.items if i.optional_vars is not None]
+        for t, v in tg:
+            for x in _ast.walk(t):
+                if isinstance(x, _ast.Name):
+                    if x.id in defs or v is None or t is not x:
+                        multi.add(x.id)
+                    defs[x.id] = v
+    ok = {k: v for k, v in defs.items() if k not in multi and k not in params and v is not None}
+
+    class R(_ast.NodeTransformer):
+        def __init__(self, d):
+            self.d = d
+
+        def visit_Name(self, n):
+            if isinstance(n.ctx, _ast.Load) and n.id in ok and self.d > 0:
+                return R(self.d - 1).visit(_copy.deepcopy(ok[n.id]))
+            return n
+    return R(depth).visit(_copy.deepcopy(e))
